@@ -77,11 +77,18 @@ def _chunk_job(args):
                     if ln.strip():
                         cnt += 1
                 step = cnt
-                # drop a possibly half-written last line
-                if ls and not ls[-1].endswith("\n"):
-                    ls = ls[:-1]
+                # keep only complete records (a crash can leave a half-written line anywhere near the end)
+                good = []
+                for ln in ls:
+                    if not ln.strip():
+                        continue
+                    try:
+                        json.loads(ln)
+                        good.append(ln if ln.endswith("\n") else ln + "\n")
+                    except ValueError:
+                        pass
                 with open(trace, "w") as f:
-                    f.writelines(ls)
+                    f.writelines(good)
             except OSError:
                 pass
             out["crashes"].append({"history": idx, "rc": rc, "stderr": err, "step": step})
@@ -96,7 +103,10 @@ def _chunk_job(args):
         r = vc.run_tlc(module, env=env, workers=1, timeout=tlc_timeout, heap="3g", tag="%s-%d-%d" % (module, k, base))
         out["tlc_wall"] += r.wall
         if not r.results:
-            out["infra"] = "TLC produced no RESULT for %s (rc=%s): %s" % (trace, r.rc, r.out[-1500:])
+            # a trace cut short by a crash that TLC cannot digest is not an infrastructure problem of its own:
+            # the crash itself is already reported from the harness exit status
+            if not any(c["history"] >= base for c in out["crashes"]):
+                out["infra"] = "TLC produced no RESULT for %s (rc=%s): %s" % (trace, r.rc, r.out[-1500:])
             continue
         res = r.results[-1]
         res["_base"] = base
